@@ -57,7 +57,15 @@ pub enum Op {
 
 #[derive(Clone, Debug, Serialize, Deserialize)]
 pub enum Case {
-    Chan { anchors: bool, outbound: bool, ops: Vec<Op> },
+    Chan {
+        anchors: bool,
+        outbound: bool,
+        ops: Vec<Op>,
+        /// the signer runs with OnchainValidatorFactory (vlsd's default) and the channel's funding
+        /// transaction is confirmed on the tracker's chain
+        #[serde(default)]
+        onchain: bool,
+    },
     /// Store: steps = (kind, param) interpreted by `run_store`
     Store { steps: Vec<StoreOp> },
 }
@@ -168,12 +176,13 @@ struct SignRec {
 pub struct C03;
 
 impl C03 {
-    fn run_chan(&self, anchors: bool, outbound: bool, ops: &[Op], st: &mut CaseStats, ctx: &Ctx) -> Result<(), Violation> {
-        let mut w = World::new(WorldCfg::default_testnet());
+    fn run_chan(&self, anchors: bool, outbound: bool, onchain: bool, ops: &[Op], st: &mut CaseStats, ctx: &Ctx) -> Result<(), Violation> {
+        let mut w = if onchain { World::new_onchain(WorldCfg::default_testnet()) } else { World::new(WorldCfg::default_testnet()) };
+        st.class(if onchain { "onchain-factory" } else { "simple-factory" });
         let mut spec = ChanSpec::basic(1);
         spec.anchors = anchors;
         spec.outbound = outbound;
-        let ci = w.open(&spec);
+        let ci = if onchain { crate::chainpool::open_confirmed(&mut w, &spec).0 } else { w.open(&spec) };
         let payee = PublicKey::from_secret_key(&w.secp, &SecretKey::from_slice(&[5u8; 32]).unwrap());
         for h in 0u8..4 {
             w.node.add_keysend(payee, phash(h), 2_000_000_000).expect("keysend");
@@ -593,15 +602,15 @@ impl Prop for C03 {
         let n = tier.pick(30usize, 80usize);
         let m = tier.pick(40usize, 150usize);
         prop_oneof![
-            3 => (any::<bool>(), any::<bool>(), proptest::collection::vec(op_strat(), 1..n))
-                .prop_map(|(anchors, outbound, ops)| Case::Chan { anchors, outbound, ops }),
+            3 => (any::<bool>(), any::<bool>(), proptest::collection::vec(op_strat(), 1..n), prop::bool::weighted(0.4))
+                .prop_map(|(anchors, outbound, ops, onchain)| Case::Chan { anchors, outbound, ops, onchain }),
             2 => proptest::collection::vec(store_op_strat(), 1..m).prop_map(|steps| Case::Store { steps }),
         ]
         .boxed()
     }
     fn run(&self, case: &Case, st: &mut CaseStats, ctx: &Ctx) -> Result<(), Violation> {
         match case {
-            Case::Chan { anchors, outbound, ops } => self.run_chan(*anchors, *outbound, ops, st, ctx),
+            Case::Chan { anchors, outbound, ops, onchain } => self.run_chan(*anchors, *outbound, *onchain, ops, st, ctx),
             Case::Store { steps } => self.run_store(steps, st, ctx),
         }
     }
